@@ -29,6 +29,7 @@ pub struct Norm<'a> {
     pub tmp_no: usize,
     pub call_no: BTreeMap<String, usize>,
     pub let_no: BTreeMap<String, usize>,
+    pub chain_no: BTreeMap<String, usize>,
     pub hoisted: Vec<Stmt>,
     pub log: BTreeMap<String, usize>,
     pub raws: Vec<String>,
@@ -47,7 +48,7 @@ impl<'a> Norm<'a> {
         Norm {
             spec, unit, canary, fname: fname.to_string(),
             loop_no: 0, closure_no: 0, if_no: 0, match_no: 0, assert_no: 0, return_no: 0, forpat_no: 0, tmp_no: 0,
-            call_no: Default::default(), let_no: Default::default(), hoisted: vec![], log: Default::default(),
+            call_no: Default::default(), let_no: Default::default(), chain_no: Default::default(), hoisted: vec![], log: Default::default(),
             raws: vec![], used_anchors: Default::default(), avail_anchors: Default::default(), errors: vec![],
             closure_depth: 0, canaries: vec![],
         }
@@ -452,7 +453,16 @@ impl<'a> VisitMut for Norm<'a> {
             }
             let saved = std::mem::take(&mut self.hoisted);
             self.visit_stmt_mut(&mut s);
-            let mine = std::mem::replace(&mut self.hoisted, saved);
+            let mut mine = std::mem::replace(&mut self.hoisted, saved);
+            // R-CHAINBIND: name intermediates of the statement's root method chain
+            if !self.spec.chainbind.is_empty() {
+                let root: Option<&mut Expr> = match &mut s {
+                    Stmt::Local(l) => l.init.as_mut().map(|i| &mut *i.expr),
+                    Stmt::Expr(e, _) => Some(e),
+                    _ => None,
+                };
+                if let Some(root) = root { self.chainbind_spine(root, &mut mine); }
+            }
             // call anchors (after renaming)
             let callee = match &s {
                 Stmt::Expr(Expr::MethodCall(mc), _) => Some(mc.method.to_string()),
@@ -879,6 +889,33 @@ impl<'a> VisitMut for Norm<'a> {
 }
 
 impl<'a> Norm<'a> {
+    /// R-CHAINBIND: walk the receiver spine of a statement's root expression (innermost first); a method call
+    /// `recv.METHOD(..)` that is the k-th METHOD seen on root spines of this fn and is named by `@chainbind METHOD#k [mut] NAME`
+    /// becomes `let [mut] NAME = recv.METHOD(..);` before the statement and `NAME` in the chain. The spine head is
+    /// evaluated first anyway, so evaluation order is unchanged.
+    fn chainbind_spine(&mut self, e: &mut Expr, out: &mut Vec<Stmt>) {
+        match e {
+            Expr::MethodCall(mc) => self.chainbind_spine(&mut mc.receiver, out),
+            Expr::Try(t) => { self.chainbind_spine(&mut t.expr, out); return; }
+            Expr::Paren(p) => { self.chainbind_spine(&mut p.expr, out); return; }
+            Expr::Field(f) => { self.chainbind_spine(&mut f.base, out); return; }
+            _ => return,
+        }
+        let Expr::MethodCall(mc) = e else { return };
+        let nm = mc.method.to_string();
+        let k = { let k = self.chain_no.entry(nm.clone()).or_default(); *k += 1; *k };
+        let key = format!("{}#{}", nm, k);
+        if let Some((_, is_mut, name)) = self.spec.chainbind.iter().find(|(m, _, _)| m == &key).cloned() {
+            let id = Ident::new(&name, Span::call_site());
+            let old = e.clone();
+            out.push(if is_mut { parse_quote!(let mut #id = #old;) } else { parse_quote!(let #id = #old;) });
+            out.extend(self.anchor(&format!("after-let {}", name)));
+            *e = parse_quote!(#id);
+            self.used_anchors.insert(format!("chainbind {}", key));
+            self.bump("R-CHAINBIND");
+        }
+    }
+
     fn finish_loop(&mut self, n: usize, body: &mut Block) {
         let s0 = self.anchor(&format!("loop{}.start", n));
         let s1 = self.anchor(&format!("loop{}.end", n));
